@@ -1,6 +1,10 @@
 mod actor;
 mod group;
 mod messages;
+#[cfg(datacake_verif)]
+pub mod messages_verif {
+    pub use super::messages::{CorruptedState, PurgeDeletes, SymDiff};
+}
 
 pub use actor::{spawn_keyspace, KeyspaceActor};
 pub use group::{KeyspaceGroup, KeyspaceInfo, KeyspaceTimestamps};
